@@ -44,6 +44,7 @@ class Contract:
         self.notes = []
         self.bounded = None
         self.outer_inputs = None # for nested targets: inputs of the enclosing function
+        self.native_entry = None  # fn(g, fn, a): native call used by the replay
         self.known = {}          # label -> known-finding id (documentation only)
         self.timeout_ms = None
         if self.id in REGISTRY:
